@@ -244,6 +244,38 @@ def replay(doc):
     return 1 if any(v["kind"] == kind for v in cx.viol) else 0
 
 
+def vkey(v):
+    ins = v["inputs"]
+    return v["kind"] + "|" + "|".join(
+        f"{k}={ins[k].get('tiers', ins[k].get('time'))}/{ins[k].get('cutoff')}/{ins[k].get('pre_length')}"
+        for k in ("a", "b") if k in ins)
+
+
+def recorded_file(tier):
+    import os
+    return os.path.join(env.VERIF_DIR, "findings", f"F8_failing_inputs_{tier}.json")
+
+
+def load_recorded(tier):
+    import json
+    try:
+        with open(recorded_file(tier)) as f:
+            return set(json.load(f)["keys"])
+    except FileNotFoundError:
+        return None
+
+
+def record(tier):
+    """(maintenance, never called by a check) write the failing-input set of the current tree"""
+    import json
+    L = dict(quick=(3, 2, 2, 2, 3, 1), thorough=(4, 2, 3, 1, 3, 2))[tier]
+    cx = run(*L)
+    keys = sorted({vkey(v) for v in cx.viol if v["cls"] == "mixed-cutoff-tie"})
+    with open(recorded_file(tier), "w") as f:
+        json.dump(dict(bound=L, n=len(keys), keys=keys), f)
+    return len(keys)
+
+
 def check(prop, tier):
     t0 = time.time()
     if tier == "quick":
@@ -253,10 +285,20 @@ def check(prop, tier):
     cx = run(L, K, La, Ka, Lt, Kt)
     rep = findings.Reporter("C08")
     seen = {}
+    # F8 is recorded as the *exact set* of failing inputs at this bound
+    # (findings/F8_failing_inputs_<tier>.json): the predicate `mixed-cutoff-tie` alone would
+    # also cover a change that merely alters how such pairs fail
+    recorded = load_recorded(tier)
+    new_in_class = 0
     for v in cx.viol:
         sg = (v["kind"], v["cls"])
         seen[sg] = seen.get(sg, 0) + 1
-        if v["cls"] is None and seen[sg] > 5:
+        if v["cls"] is not None and recorded is not None and vkey(v) not in recorded:
+            v = dict(v, cls=None, msg=v["msg"] + "  [not among the failing inputs recorded for F8]")
+            new_in_class += 1
+            if new_in_class > 5:
+                continue
+        elif v["cls"] is None and seen[sg] > 5:
             continue     # enough replay files for one unclassified kind
         rep.report(v, dict(kind="call", module="mc.enum_c08", inputs=v["inputs"]))
     rc = rep.finish()
